@@ -278,6 +278,7 @@ pub fn drive(d: &mut Driver)
 		jobs.push(json!({"kind": "nested", "type": ti}));
 	}
 	jobs.push(json!({"kind": "lengths"}));
+	jobs.push(json!({"kind": "lengths2d"}));
 	let nm = member_types().len();
 	for a in 0..nm
 	{
@@ -315,6 +316,7 @@ pub fn work(spec: &Value, w: &mut WorkerCtx)
 			}
 		}
 		"lengths" => lengths(w),
+		"lengths2d" => lengths_2d(w),
 		"sizes" => sizes(spec["first"].as_u64().unwrap() as usize, w),
 		other => panic!("unknown kind {other}"),
 	}
@@ -501,6 +503,81 @@ fn lengths(w: &mut WorkerCtx)
 			let culprit = lines.first().and_then(|l| src_lines.get(l.saturating_sub(1))).map(|s| s.trim().to_string()).unwrap_or_default();
 			w.result.outcome("lengths:rejected:MISMATCH");
 			w.result.violation(&format!("valid-length-program-rejected:E{}", codes.first().copied().unwrap_or(0)), 1000, &desc, || format!("rejected with {codes:?}; first culprit line: {culprit}"));
+		}
+	}
+}
+
+/// Lengths of every dimension of multi-dimensional arrays, by name and through every way of
+/// passing them on; one program per (shape, form) so that a rejection is attributed.
+pub fn lengths_2d_programs() -> Vec<(String, String, String)>
+{
+	let mut out = Vec::new();
+	for n in 1..=3usize
+	{
+		for m in 1..=3usize
+		{
+			let row: Vec<String> = (0..m).map(|j| format!("{}", j + 1)).collect();
+			let rows: Vec<String> = (0..n).map(|_| format!("[{}]", row.join(", "))).collect();
+			let init = format!("[{}]", rows.join(", "));
+			let expected = format!("{n} {m}\n");
+			let forms: [(&str, String, String); 8] = [
+				("by name", String::new(), format!("\tvar a: [{n}][{m}]i32 = {init};\n\tprint!(|a|, \" \", |a[0]|, \"\\n\");\n")),
+				("through a view", format!("fn outer(x: [][{m}]i32) -> usize\n{{\n\treturn: |x|\n}}\nfn inner(x: [][{m}]i32) -> usize\n{{\n\treturn: |x[0]|\n}}\n"), format!("\tvar a: [{n}][{m}]i32 = {init};\n\tprint!(outer(a), \" \", inner(a), \"\\n\");\n")),
+				("through a pointer to the array", format!("fn outer(x: &[{n}][{m}]i32) -> usize\n{{\n\treturn: |x|\n}}\nfn inner(x: &[{n}][{m}]i32) -> usize\n{{\n\treturn: |x[0]|\n}}\n"), format!("\tvar a: [{n}][{m}]i32 = {init};\n\tprint!(outer(&a), \" \", inner(&a), \"\\n\");\n")),
+				("through a slice pointer", format!("fn outer(x: &[][{m}]i32) -> usize\n{{\n\treturn: |x|\n}}\nfn inner(x: &[][{m}]i32) -> usize\n{{\n\treturn: |x[0]|\n}}\n"), format!("\tvar a: [{n}][{m}]i32 = {init};\n\tprint!(outer(&a), \" \", inner(&a), \"\\n\");\n")),
+				("as a structure member", format!("struct G\n{{\n\tgrid: [{n}][{m}]i32,\n}}\n"), format!("\tvar g: G = G {{ grid: {init} }};\n\tprint!(|g.grid|, \" \", |g.grid[0]|, \"\\n\");\n")),
+				("as a member of a structure passed as a view", format!("struct G\n{{\n\tgrid: [{n}][{m}]i32,\n}}\nfn outer(g: G) -> usize\n{{\n\treturn: |g.grid|\n}}\nfn inner(g: G) -> usize\n{{\n\treturn: |g.grid[0]|\n}}\n"), format!("\tvar g: G = G {{ grid: {init} }};\n\tprint!(outer(g), \" \", inner(g), \"\\n\");\n")),
+				("as a member of a structure passed by pointer", format!("struct G\n{{\n\tgrid: [{n}][{m}]i32,\n}}\nfn outer(g: &G) -> usize\n{{\n\treturn: |g.grid|\n}}\nfn inner(g: &G) -> usize\n{{\n\treturn: |g.grid[0]|\n}}\n"), format!("\tvar g: G = G {{ grid: {init} }};\n\tprint!(outer(&g), \" \", inner(&g), \"\\n\");\n")),
+				("of the last row", String::new(), format!("\tvar a: [{n}][{m}]i32 = {init};\n\tprint!(|a|, \" \", |a[{}]|, \"\\n\");\n", n - 1)),
+			];
+			for (form, prelude, body) in forms
+			{
+				out.push((format!("[{n}][{m}]i32 {form}"), format!("{prelude}fn main() -> u8\n{{\n{body}\treturn: 0\n}}\n"), expected.clone()));
+			}
+		}
+	}
+	// three dimensions
+	out.push(("[2][3][4]i32 by name".to_string(), "fn main() -> u8\n{\n\tvar a: [2][3][4]i32;\n\tprint!(|a|, \" \", |a[0]|, \" \", |a[0][0]|, \"\\n\");\n\treturn: 0\n}\n".to_string(), "2 3 4\n".to_string()));
+	out.push(("[2][3][4]i32 through a pointer to the array".to_string(), "fn dims(x: &[2][3][4]i32)\n{\n\tprint!(|x|, \" \", |x[0]|, \" \", |x[0][0]|, \"\\n\");\n}\nfn main() -> u8\n{\n\tvar a: [2][3][4]i32;\n\tdims(&a);\n\treturn: 0\n}\n".to_string(), "2 3 4\n".to_string()));
+	out.push(("[2][3][4]i32 through a view".to_string(), "fn dims(x: [][3][4]i32)\n{\n\tprint!(|x|, \" \", |x[0]|, \" \", |x[0][0]|, \"\\n\");\n}\nfn main() -> u8\n{\n\tvar a: [2][3][4]i32;\n\tdims(a);\n\treturn: 0\n}\n".to_string(), "2 3 4\n".to_string()));
+	out
+}
+
+fn lengths_2d(w: &mut WorkerCtx)
+{
+	for (i, (what, text, expected)) in lengths_2d_programs().into_iter().enumerate()
+	{
+		w.result.states += 1;
+		w.result.transitions += 1;
+		let form = what.split_once(' ').map(|x| x.1.to_string()).unwrap_or_default();
+		let desc = || json!({"kind": "lengths2d", "index": i, "what": what, "text": text, "sig_hint": "lengths"});
+		let d = desc().to_string().into_bytes();
+		let Some((v, exec)) = compile_and_run(&text, &d, w)
+		else
+		{
+			continue;
+		};
+		w.result.validated += 1;
+		match (&v, exec)
+		{
+			(Verdict::Ok { .. }, Some(exec)) =>
+			{
+				if exec.status != Some(0) || exec.stdout != expected
+				{
+					w.result.outcome("lengths of dimensions:MISMATCH");
+					w.result.violation(&format!("wrong-length-of-dimension:{form}"), text.len() as u64, &desc, || format!("{what}: the program prints {:?} (status {:?}), expected {expected:?}\n{text}", exec.stdout, exec.status));
+				}
+				else
+				{
+					w.result.outcome("lengths of dimensions:agree");
+				}
+			}
+			(other, _) =>
+			{
+				let codes = other.codes();
+				w.result.outcome("lengths of dimensions:rejected:MISMATCH");
+				w.result.violation(&format!("valid-length-program-rejected:E{}:{form}", codes.first().copied().unwrap_or(0)), text.len() as u64, &desc, || format!("{what}: rejected with {codes:?}\n{text}"));
+			}
 		}
 	}
 }
